@@ -557,7 +557,7 @@ def i_JP(i_, fmap):
 
 
 def i_JPcc(i_, fmap):
-    src = i_.operands[1]
+    src = i_.operands[0]
     fmap[pc] = tst(i_.cond[1], fmap(src), fmap[pc] + i_.length)
 
 
@@ -568,7 +568,7 @@ def i_JR(i_, fmap):
 
 
 def i_JRcc(i_, fmap):
-    src = i_.operands[1]
+    src = i_.operands[0]
     fmap[pc] = fmap[pc] + i_.length
     fmap[pc] = tst(i_.cond[1], fmap[pc] + fmap(src).signextend(16), fmap[pc])
 
@@ -591,7 +591,7 @@ def i_CALL(i_, fmap):
 
 
 def i_CALLcc(i_, fmap):
-    src = i_.operands[1]
+    src = i_.operands[0]
     _back = fmap[pc] + i_.length
     _push_cc(fmap, i_.cond[1], _back)
     fmap[pc] = tst(i_.cond[1], fmap(src), _back)
